@@ -390,6 +390,32 @@ func bsTrimByte(s *BStr, c byte) *BStr {
 	return bsSub(s, lead, end)
 }
 
+// bsTrimSet: strip leading and trailing bytes for which isCut holds.
+func bsTrimSet(s *BStr, isCut func(b *Term) *Term) *BStr {
+	ctx := pickCtx(s)
+	n := len(s.B)
+	lead := BV(64, 0)
+	allSoFar := True
+	for i := 0; i < n; i++ {
+		c := And(Cmp("<", idx64(i), s.Len, false), isCut(s.B[i]))
+		allSoFar = And(allSoFar, c)
+		lead = Ite(allSoFar, idx64(i+1), lead)
+	}
+	lead = ctx.name(lead, "lead")
+	end := lead
+	for i := 0; i < n; i++ {
+		nonC := And(Cmp("<", idx64(i), s.Len, false), Not(isCut(s.B[i])))
+		end = Ite(nonC, idx64(i+1), end)
+	}
+	end = ctx.name(end, "end")
+	return bsSub(s, lead, end)
+}
+
+// isASCIISpace: '\t' '\n' '\v' '\f' '\r' ' '
+func isASCIISpace(b *Term) *Term {
+	return Or(bvEq(b, BV(8, 0x20)), And(Cmp(">=", b, BV(8, 0x09), false), Cmp("<=", b, BV(8, 0x0d), false)))
+}
+
 // evalBStr reads the model value of a byte-vector string.
 func (st *State) evalBStr(b *BStr) string {
 	n := int(st.evalTerm(b.Len).(uint64))
